@@ -3,7 +3,7 @@ source with `ast` (no import of cssutils) and written as `CssVerif.Re` terms to 
 
   cssutils/cssproductions.py  MACROS, PRODUCTIONS  -> STRING, URI, IDENT, COMMENT (macro-expanded as
                                                       Tokenizer._expand_macros does, wrapped in (?:…), re.U)
-  cssutils/tokenize2.py       Tokenizer.unicodesub, Tokenizer.cleanstring, the two lists of token types that are unescaped
+  cssutils/tokenize2.py       Tokenizer.unicodesub, Tokenizer.stringsub, the two lists of token types (unescaped / string-like)
   cssutils/helper.py          _simpleescapes, _match_forbidden_in_uri
 """
 import ast
@@ -78,9 +78,9 @@ def read_tokenizer(repo):
     out = {}
     cls = [n for n in tree.body if isinstance(n, ast.ClassDef) and n.name == 'Tokenizer'][0]
     for n in cls.body:
-        if isinstance(n, ast.Assign) and isinstance(n.targets[0], ast.Name) and n.targets[0].id in ('unicodesub', 'cleanstring'):
+        if isinstance(n, ast.Assign) and isinstance(n.targets[0], ast.Name) and n.targets[0].id in ('unicodesub', 'stringsub'):
             out[n.targets[0].id] = _compile_call(n.value)
-    # `if name in ( 'DIMENSION', … ):` and the nested `if name in ('STRING', 'INVALID'):`
+    # `if name in ( 'DIMENSION', … ):` and the nested `if name in ('STRING', 'INVALID', 'URI'):`
     lists = []
     for n in ast.walk(cls):
         if isinstance(n, ast.If) and isinstance(n.test, ast.Compare) and isinstance(n.test.left, ast.Name) \
@@ -88,8 +88,8 @@ def read_tokenizer(repo):
                 and isinstance(n.test.comparators[0], ast.Tuple):
             lists.append((n.lineno, [_const(e) for e in n.test.comparators[0].elts]))
     lists.sort()
-    if len(lists) != 2 or 'unicodesub' not in out or 'cleanstring' not in out:
-        raise relib.Unsupported('tokenize2.py: expected unicodesub, cleanstring and two `name in (...)` lists, got %r' % (lists,))
+    if len(lists) != 2 or 'unicodesub' not in out or 'stringsub' not in out:
+        raise relib.Unsupported('tokenize2.py: expected unicodesub, stringsub and two `name in (...)` lists, got %r' % (lists,))
     out['unescaped_types'] = lists[0][1]
     out['cleaned_types'] = lists[1][1]
     return out
@@ -117,14 +117,14 @@ def patterns(repo):
     tk = read_tokenizer(repo)
     hp = read_helper(repo)
     res['unicodesub'] = tk['unicodesub'][:2]
-    res['cleanstring'] = tk['cleanstring'][:2]
+    res['stringsub'] = tk['stringsub'][:2]
     res['simpleescapes'] = hp['_simpleescapes'][:2]
     res['forbidden_in_uri'] = hp['_match_forbidden_in_uri'][:2]
     return res, tk
 
 
 LEAN_NAMES = {'STRING': 'stringRe', 'URI': 'uriRe', 'IDENT': 'identRe', 'COMMENT': 'commentRe',
-              'unicodesub': 'unicodesubRe', 'cleanstring': 'cleanstringRe', 'simpleescapes': 'simpleescapesRe',
+              'unicodesub': 'unicodesubRe', 'stringsub': 'stringsubRe', 'simpleescapes': 'simpleescapesRe',
               'forbidden_in_uri': 'forbiddenInUriRe'}
 
 
@@ -149,7 +149,7 @@ def generate(repo):
         return '[' + ', '.join('"%s"' % x for x in l) + ']'
     lines.append('/-- token types whose value goes through `unicodesub` (tokenize2.py) -/')
     lines.append('def unescapedTypes : List String := %s' % strs(tk['unescaped_types']))
-    lines.append('/-- … and of those, the ones that also go through `cleanstring` -/')
+    lines.append('/-- … and of those, the ones that go through `stringsub` instead (line continuations removed too) -/')
     lines.append('def cleanedTypes : List String := %s' % strs(tk['cleaned_types']))
     lines.append('')
     lines.append('end CssVerif.Gen.C03')
